@@ -19,35 +19,35 @@ theorem two_pow_succ' (k : Nat) (h : 0 < k) : 2 ^ k = 2 * 2 ^ (k - 1) := by
 
 /-- normal form of an ordinal: `sh` = exponent above the first binade, `M` = the full (up to 53 bit) mantissa -/
 theorem scaled_norm (sh M : Nat) (h1 : M < P53) (h2 : sh = 0 ∨ P52 ≤ M) :
-    scaled (sh * P52 + M) = M * 2 ^ sh := by
+    scaled (P52 * sh + M) = M * 2 ^ sh := by
   unfold scaled
   rcases h2 with h | h
   · subst h
-    simp only [Nat.zero_mul, Nat.zero_add, Nat.pow_zero, Nat.mul_one]
+    simp only [Nat.mul_zero, Nat.zero_add, Nat.pow_zero, Nat.mul_one]
     by_cases hM : M < P52
     · have : M / P52 = 0 := by omega
       simp [this]
     · have h1 : M / P52 = 1 := by omega
       have h2 : M % P52 = M - P52 := by omega
       rw [h1, h2]; simp; omega
-  · have h3 : (sh * P52 + M) / P52 = sh + 1 := by omega
-    have h4 : (sh * P52 + M) % P52 = M - P52 := by omega
+  · have h3 : (P52 * sh + M) / P52 = sh + 1 := by omega
+    have h4 : (P52 * sh + M) % P52 = M - P52 := by omega
     rw [h3, h4]
     have : P52 + (M - P52) = M := by omega
     simp [this]
 
-theorem ord_norm (n : Nat) : ∃ sh M, n = sh * P52 + M ∧ M < P53 ∧ (sh = 0 ∨ P52 ≤ M) := by
+theorem ord_norm (n : Nat) : ∃ sh M, n = P52 * sh + M ∧ M < P53 ∧ (sh = 0 ∨ P52 ≤ M) := by
   by_cases h : n < P52
   · exact ⟨0, n, by omega, by omega, Or.inl rfl⟩
   · exact ⟨n / P52 - 1, P52 + n % P52, by omega, by omega, Or.inr (by omega)⟩
 
 theorem scaled_succ_norm (sh M : Nat) (h1 : M < P53) (h2 : sh = 0 ∨ P52 ≤ M) :
-    scaled (sh * P52 + M + 1) = (M + 1) * 2 ^ sh := by
+    scaled (P52 * sh + M + 1) = (M + 1) * 2 ^ sh := by
   by_cases hM : M + 1 < P53
-  · have e : sh * P52 + M + 1 = sh * P52 + (M + 1) := by omega
+  · have e : P52 * sh + M + 1 = P52 * sh + (M + 1) := by omega
     rw [e]; exact scaled_norm sh (M + 1) hM (by omega)
   · have hM' : M + 1 = P53 := by omega
-    have h3 : sh * P52 + M + 1 = (sh + 1) * P52 + P52 := by omega
+    have h3 : P52 * sh + M + 1 = P52 * (sh + 1) + P52 := by omega
     rw [h3, scaled_norm (sh + 1) P52 (by omega) (by omega), hM', Nat.pow_succ]
     omega
 
@@ -76,7 +76,7 @@ theorem p52_eq : (2 : Nat) ^ 52 = P52 := by decide
 
 /-- the intermediate quantities of `roundOrd`: the kept mantissa is normalised and brackets the rational -/
 theorem roundOrd_parts (num den : Nat) (hd : 0 < den) :
-    let Q := num * 2 ^ 1074
+    let Q := 2 ^ 1074 * num
     let F := Q / den
     let sh := F.log2 + 1 - 53
     let M := F / 2 ^ sh
@@ -119,12 +119,12 @@ theorem scaled_mul_lt {a b den : Nat} (h : a < b) (hd : 0 < den) : scaled a * de
 
 /-- between two adjacent doubles, at or below their midpoint (exactly at it only for an even lower one): the lower one is nearest -/
 theorem nearest_of_lower (num den n : Nat) (hd : 0 < den)
-    (h1 : scaled n * den ≤ num * 2 ^ 1074) (h2 : num * 2 ^ 1074 < scaled (n + 1) * den)
-    (h3 : 2 * (num * 2 ^ 1074) ≤ scaled n * den + scaled (n + 1) * den)
-    (h4 : 2 * (num * 2 ^ 1074) = scaled n * den + scaled (n + 1) * den → n % 2 = 0) :
+    (h1 : scaled n * den ≤ 2 ^ 1074 * num) (h2 : 2 ^ 1074 * num < scaled (n + 1) * den)
+    (h3 : 2 * (2 ^ 1074 * num) ≤ scaled n * den + scaled (n + 1) * den)
+    (h4 : 2 * (2 ^ 1074 * num) = scaled n * den + scaled (n + 1) * den → n % 2 = 0) :
     Nearest num den n := by
   unfold Nearest distTo dist
-  generalize num * 2 ^ 1074 = Q at *
+  generalize 2 ^ 1074 * num = Q at *
   by_cases hn : n = 0
   · subst hn
     refine ⟨⟨by omega, fun h => by omega⟩, Or.inl rfl⟩
@@ -133,12 +133,12 @@ theorem nearest_of_lower (num den n : Nat) (hd : 0 < den)
 
 /-- … at or above the midpoint (exactly at it only for an even upper one): the upper one is nearest -/
 theorem nearest_of_upper (num den n : Nat) (hd : 0 < den)
-    (h1 : scaled n * den ≤ num * 2 ^ 1074) (h2 : num * 2 ^ 1074 < scaled (n + 1) * den)
-    (h3 : scaled n * den + scaled (n + 1) * den ≤ 2 * (num * 2 ^ 1074))
-    (h4 : 2 * (num * 2 ^ 1074) = scaled n * den + scaled (n + 1) * den → (n + 1) % 2 = 0) :
+    (h1 : scaled n * den ≤ 2 ^ 1074 * num) (h2 : 2 ^ 1074 * num < scaled (n + 1) * den)
+    (h3 : scaled n * den + scaled (n + 1) * den ≤ 2 * (2 ^ 1074 * num))
+    (h4 : 2 * (2 ^ 1074 * num) = scaled n * den + scaled (n + 1) * den → (n + 1) % 2 = 0) :
     Nearest num den (n + 1) := by
   unfold Nearest distTo dist
-  generalize num * 2 ^ 1074 = Q at *
+  generalize 2 ^ 1074 * num = Q at *
   have hE := scaled_mul_lt (show n + 1 < n + 1 + 1 by omega) hd
   have e : n + 1 - 1 = n := by omega
   rw [e]
@@ -150,7 +150,7 @@ theorem roundOrd_nearest (num den : Nat) (hd : 0 < den) : Nearest num den (round
   simp only at key
   unfold roundOrd
   simp only
-  generalize num * 2 ^ 1074 / den = F at key ⊢
+  generalize 2 ^ 1074 * num / den = F at key ⊢
   generalize F.log2 + 1 - 53 = sh at key ⊢
   generalize F / 2 ^ sh = M at key ⊢
   obtain ⟨hM, hn, hlo, hhi⟩ := key
@@ -160,25 +160,25 @@ theorem roundOrd_nearest (num den : Nat) (hd : 0 < den) : Nearest num den (round
   rw [← hA] at hlo hmid
   rw [← hB] at hhi hmid
   rw [hmid]
-  have hpar : (sh * P52 + M) % 2 = M % 2 := by omega
+  have hpar : (P52 * sh + M) % 2 = M % 2 := by omega
   split
-  · refine nearest_of_lower num den (sh * P52 + M) hd hlo hhi ?_ ?_ <;>
-      (generalize num * 2 ^ 1074 = Q at *; omega)
+  · refine nearest_of_lower num den (P52 * sh + M) hd hlo hhi ?_ ?_ <;>
+      (generalize 2 ^ 1074 * num = Q at *; omega)
   · split
-    · refine nearest_of_upper num den (sh * P52 + M) hd hlo hhi ?_ ?_ <;>
-        (generalize num * 2 ^ 1074 = Q at *; omega)
+    · refine nearest_of_upper num den (P52 * sh + M) hd hlo hhi ?_ ?_ <;>
+        (generalize 2 ^ 1074 * num = Q at *; omega)
     · split
-      · refine nearest_of_lower num den (sh * P52 + M) hd hlo hhi ?_ ?_ <;>
-          (generalize num * 2 ^ 1074 = Q at *; omega)
-      · refine nearest_of_upper num den (sh * P52 + M) hd hlo hhi ?_ ?_ <;>
-          (generalize num * 2 ^ 1074 = Q at *; omega)
+      · refine nearest_of_lower num den (P52 * sh + M) hd hlo hhi ?_ ?_ <;>
+          (generalize 2 ^ 1074 * num = Q at *; omega)
+      · refine nearest_of_upper num den (P52 * sh + M) hd hlo hhi ?_ ?_ <;>
+          (generalize 2 ^ 1074 * num = Q at *; omega)
 
 /-! ## `Nearest` determines the ordinal -/
 
 theorem nearest_not_lt (num den a b : Nat) (hd : 0 < den) (hab : a < b)
     (ha : Nearest num den a) (hb : Nearest num den b) : False := by
   unfold Nearest distTo dist at ha hb
-  generalize num * 2 ^ 1074 = Q at *
+  generalize 2 ^ 1074 * num = Q at *
   obtain ⟨⟨ha1, ha2⟩, _⟩ := ha
   obtain ⟨_, hb'⟩ := hb
   rcases hb' with hb0 | ⟨hb1, hb2⟩
@@ -317,7 +317,7 @@ theorem nearest_inf_iff (num den n : Nat) (hd : 0 < den) (hn : Nearest num den n
   unfold Overflows
   rw [decide_eq_true_iff]
   unfold Nearest distTo dist at hn
-  generalize num * 2 ^ 1074 = Q at *
+  generalize 2 ^ 1074 * num = Q at *
   obtain ⟨⟨hu1, hu2⟩, hl⟩ := hn
   have e1 : infOrd - 1 + 1 = infOrd := by omega
   have hTop := scaled_mul_lt (show infOrd - 1 < infOrd by omega) hd
